@@ -47,3 +47,13 @@ package certwatcher
 //@   props C14
 //@   ensures [C14:needs-initial-pair] err == nil ==> cw != nil && cw.currentCert != nil && cw.watcher != nil
 //@   ensures [C14:no-watcher-without-pair] err != nil ==> cw == nil
+
+//@ -- the watch loop keeps consuming events (every relevant one is handled) until fsnotify closes a channel; a
+//@ -- reported watcher error is logged and does not end the loop (convergence after later updates depends on this)
+//@ func (*CertWatcher).Watch :: cw
+//@   props C14
+//@   requires cw != nil && cw.watcher != nil
+//@   assigns unrestricted, cwlog, lastLoadedPair, lastWatched
+//@   ensures [C14:watch-loop-ends-only-when-the-watcher-is-closed] !ok#1 || !ok#2
+//@   ensures [C14:never-clears-current-pair] old(cw.currentCert) != nil ==> cw.currentCert != nil
+//@   loop 1 invariant cw != nil && cw.watcher != nil && (old(cw.currentCert) != nil ==> cw.currentCert != nil)
